@@ -82,9 +82,11 @@ func TestCheck(t *testing.T) {
 	r.Require("aggsigdb_store_events", int64(n)*3)
 	r.Require("nontrivial_cases", int64(n)*3/10)
 	r.Require("cases_with_broadcast", int64(n)/2)
-	r.Require("threshold_triggers_with_2plus_failing_validators", int64(n)/10)
+	r.Require("threshold_triggers_with_2plus_failing_validators", int64(n)/15)
 	r.Require("transplanted_sets_with_threshold_shares", int64(n)/5)
 	r.Require("bn_lookup_failures_injected", int64(n))
+	r.Require("resign/second_submission_refused_by_node", int64(n)/5)
+	r.Require("resign/cases_with_balanced_head_split_and_resigning_vc", int64(n)/10)
 
 	var sampled atomic.Int32
 	r.Cases(n, par, func(c *kit.Case) {
@@ -268,7 +270,7 @@ func (w *world) finish(replayed int, sampled *atomic.Int32) {
 	r, c, m := w.r, w.c, w.mon
 	s := w.sched
 	s.mu.Lock()
-	sent, delivered, dups, droppedCrash, held, reordered := s.sent, s.delivered, s.dups, s.droppedCrash, s.heldByPartition, s.reordered
+	sent, delivered, dups, droppedCrash, held, reordered, droppedLossy := s.sent, s.delivered, s.dups, s.droppedCrash, s.heldByPartition, s.reordered, s.droppedLossy
 	s.mu.Unlock()
 	m.mu.Lock()
 	defer m.mu.Unlock()
@@ -291,6 +293,13 @@ func (w *world) finish(replayed int, sampled *atomic.Int32) {
 	r.Count("partials/accepted_from_byzantine", int64(m.acceptedByz))
 	r.Count("partials/equivocation_refused_by_parsigdb", int64(m.equivocations))
 	r.Count("vc/submissions_accepted", int64(m.vcSubmitted))
+	r.Count("resign/second_submission_refused_by_node", int64(m.resignRefused))
+	r.Count("resign/second_submission_accepted_nothing_stored_before", int64(m.resignAccepted))
+	r.Count("resign/second_submission_other_error", int64(m.resignOther))
+	if w.p.SyncSplit == "balanced" && w.hasKind("sync") {
+		r.Count("resign/cases_with_balanced_head_split_and_resigning_vc", 1)
+	}
+	r.Count("net/lost_on_lossy_links", droppedLossy)
 	for _, nd := range w.nodes {
 		if !nd.bare {
 			r.Count("bn_lookup_failures_injected", nd.client.failed.Load())
